@@ -48,7 +48,7 @@ def all_module_programs():
             for us in ([["S", "A"], ["A", "S"], ["S", "B"], ["B", "S"]] if "S" in o else [["A", "B"], ["B", "A"]]):
                 for t1, s1, t2, s2, c2, t3, s3, c3 in itertools.product(
                         "AB", SPELLS, "BN", SPELLS, (False, True), "AN", SPELLS, (False, True)):
-                    p = {"ents": o, "scope": "module", "future": fu, "uses": us, "decoy": False, "fscope": "none", "varargs": False, "igp": False,
+                    p = {"ents": o, "scope": "module", "future": fu, "uses": us, "decoy": False, "fscope": "none", "varargs": False, "igp": False, "gen": False,
                          "fields": [{"c": "A", "att": "f1", "target": t1, "spell": s1, "cons": False},
                                     {"c": "A", "att": "f2", "target": t2, "spell": s2, "cons": c2},
                                     {"c": "B", "att": "g1", "target": t3, "spell": s3, "cons": c3}]}
@@ -59,16 +59,16 @@ def all_module_programs():
 def all_local_programs():
     for d in (False, True):
         for s1, s2 in itertools.product(SPELLS[1:], repeat=2):
-            yield {"ents": ["A"], "scope": "local", "future": False, "uses": ["A", "A"], "decoy": d, "fscope": "none", "varargs": False, "igp": False,
+            yield {"ents": ["A"], "scope": "local", "future": False, "uses": ["A", "A"], "decoy": d, "fscope": "none", "varargs": False, "igp": False, "gen": False,
                    "fields": [{"c": "A", "att": "f1", "target": "A", "spell": s1, "cons": False},
                               {"c": "A", "att": "f2", "target": "A", "spell": s2, "cons": False}]}
 
 
 def all_func_programs():
     """a decorated function (module level, or nested in a factory function) whose parameter and return type name class B"""
-    for o, fu, fs, va, ig, s1, s2 in itertools.product((["B", "F"], ["F", "B"]), (False, True), ("module", "local"), (False, True), (False, True),
-                                                        SPELLS, SPELLS):
-        p = {"ents": o, "scope": "module", "future": fu, "uses": ["F", "F"], "decoy": False, "fscope": fs, "varargs": va, "igp": ig,
+    for o, fu, fs, va, ig, ge, s1, s2 in itertools.product((["B", "F"], ["F", "B"]), (False, True), ("module", "local"), (False, True), (False, True),
+                                                            (False, True), SPELLS, SPELLS):
+        p = {"ents": o, "scope": "module", "future": fu, "uses": ["F", "F"], "decoy": False, "fscope": fs, "varargs": va, "igp": ig, "gen": ge,
              "fields": [{"c": "F", "att": "p", "target": "B", "spell": s1, "cons": False},
                         {"c": "F", "att": "r", "target": "B", "spell": s2, "cons": False}]}
         if legal(p):
@@ -86,7 +86,7 @@ def source(p, n):
     lines = []
     if p["future"]:
         lines.append("from __future__ import annotations")
-    lines += ["from typing import List, Dict, Optional, Union", "import utype", "from utype import Schema, Field, Rule", "LOG = []", "RET = [None]", ""]
+    lines += ["from typing import List, Dict, Optional, Union, Iterator", "import utype", "from utype import Schema, Field, Rule", "LOG = []", "RET = [None]", ""]
     ind = ""
     if p["scope"] == "local":
         if p["decoy"]:
@@ -106,8 +106,9 @@ def source(p, n):
             if p["fscope"] == "local":
                 lines.append("def factory():")
             lines += [i2 + ("@utype.parse(ignore_params=True)" if p["igp"] else "@utype.parse"),
-                      i2 + "def F_%d(%sp: %s) -> %s:" % (n, "*" if p["varargs"] else "", annotation(fp, n, p["future"]), annotation(fr, n, p["future"])),
-                      i2 + "    LOG.append(p)", i2 + "    return RET[0]"]
+                      i2 + "def F_%d(%sp: %s) -> %s:" % (n, "*" if p["varargs"] else "", annotation(fp, n, p["future"]),
+                                                             ("Iterator[%s]" if p["gen"] else "%s") % annotation(fr, n, p["future"])),
+                      i2 + "    LOG.append(p)", i2 + ("    yield RET[0]" if p["gen"] else "    return RET[0]")]
             if p["fscope"] == "local":
                 lines += ["    return F_%d" % n, "F_%d = factory()" % n]
             lines.append("")
@@ -237,6 +238,8 @@ def run_func(p, n, mod):
             r = {"kind": kind, "ok": True, "value": "", "echo": canon(echo), "exc": []}
             try:
                 out = fn(arg)
+                if p["gen"]:
+                    out = list(out)[0]
                 r["value"] = canon({"param": project(mod.LOG[-1]), "ret": project(out)})
             except Exception as e:
                 r["ok"] = False
@@ -249,7 +252,7 @@ def run_func(p, n, mod):
 
 def pattern(p):
     if "F" in p["ents"]:
-        return "func:%s%s%s%s|%s|%s" % (p["fscope"], "+future" if p["future"] else "", "+varargs" if p["varargs"] else "", "+ignore_params" if p["igp"] else "", ">".join(p["ents"]),
+        return "func:%s%s%s%s|%s|%s" % (p["fscope"], "+future" if p["future"] else "", "+varargs" if p["varargs"] else "", ("+ignore_params" if p["igp"] else "") + ("+generator" if p["gen"] else ""), ">".join(p["ents"]),
                                       ",".join("%s:%s" % (f["att"], f["spell"]) for f in p["fields"]))
     return "%s%s|%s" % (p["scope"], "+future" if p["future"] else "",
                         ",".join("%s.%s:%s>%s%s" % (f["c"], f["att"], f["spell"], f["target"], "+cons" if f["cons"] else "")
